@@ -127,7 +127,7 @@ class Check:
         self.notes: list[str] = []
         self.level = "proof"
         kf = ROOT / "known_findings.json"
-        self.known = [f for f in json.loads(kf.read_text())["findings"] if f["property"] == pid] if kf.exists() else []
+        self.known = [f for f in json.loads(kf.read_text())["findings"] if f["property"] == pid or pid in f.get("also", [])] if kf.exists() else []
 
     # ---------- Lean side ----------
     def prove(self, module: str, extra_modules: list[str] | None = None) -> bool:
